@@ -18,6 +18,9 @@
 //!   metric pdesc <PV>                           one step down from a received property value: PropertySet::try_from(value)
 //!                                               and Vec::<PropertySet>::try_from(value) -> set:<ok ps(..)|err> sets:<ok pl(..)|err>
 //!   metric e2e <who> <variant> <prevseq> <now> <L(P..)>   handle -> ... -> store       -> data ..
+//!   metric bprops <who> <L(us..)>               a rebirth whose node (n) / device (d) birth carries one extra metric
+//!                                               `bp<i>` per property set (`BirthMetricDetails::with_properties`)
+//!                                               -> wire -> host store: ok L(<properties of bp<i> at the store>) | undelivered
 //! Numbers are decimal, floats are IEEE bits, strings/bytes hex.
 use crate::common::*;
 use std::collections::BTreeMap;
@@ -816,6 +819,38 @@ fn he_from_details(id: Id, birth: Option<(String, Option<u64>, u32)>, d: MetricD
 }
 
 // ---------- building the typed (API level) objects from the AST ----------
+/// User property types: `traits::PropertyValue` is a public trait, and Text and UUID are property datatypes of
+/// the specification (carried as `string_value`) that none of srad's built-in Rust types maps to by default.
+macro_rules! string_prop_type {
+    ($T:ident, $dt:expr) => {
+        #[derive(Clone, Debug)]
+        pub struct $T(pub String);
+        impl From<$T> for PropertyValue {
+            fn from(t: $T) -> Self {
+                PropertyValue(property_value::Value::StringValue(t.0))
+            }
+        }
+        impl TryFrom<PropertyValue> for $T {
+            type Error = ();
+            fn try_from(v: PropertyValue) -> Result<Self, ()> {
+                match v.0 {
+                    property_value::Value::StringValue(s) => Ok($T(s)),
+                    _ => Err(()),
+                }
+            }
+        }
+        impl traits::HasDataType for $T {
+            fn supported_datatypes() -> &'static [DataType] {
+                static S: [DataType; 1] = [$dt];
+                &S
+            }
+        }
+        impl traits::PropertyValue for $T {}
+    };
+}
+string_prop_type!(TextP, DataType::Text);
+string_prop_type!(UuidP, DataType::Uuid);
+
 macro_rules! scalar_by_dt {
     ($dt:expr, $f:ident, $($a:expr),*) => {
         match $dt {
@@ -832,6 +867,8 @@ macro_rules! scalar_by_dt {
             11 => $f::<bool>($($a),*),
             12 => $f::<String>($($a),*),
             13 => $f::<DateTime>($($a),*),
+            14 => $f::<TextP>($($a),*),
+            15 => $f::<UuidP>($($a),*),
             _ => Err(format!("datatype {} is no default datatype of a property type", $dt)),
         }
     };
@@ -1111,16 +1148,28 @@ fn check_birth_metrics(rec: &[RecCall]) -> Vec<String> {
 
 type TokTable = Arc<Mutex<BTreeMap<String, Tok>>>;
 
+/// property sets of the extra birth metrics `bp0`, `bp1`, … a manager registers (op `metric bprops`)
+type ExtraBirth = Arc<Mutex<Vec<Ups>>>;
+
 struct Mgr {
     toks: TokTable,
+    extra: ExtraBirth,
 }
 impl MetricManager for Mgr {
     fn initialise_birth(&self, bi: &mut BirthInitializer) {
         let mut t = self.toks.lock().unwrap();
         t.clear();
         register_all(bi, &mut t);
+        for (i, u) in self.extra.lock().unwrap().iter().enumerate() {
+            let d = BirthMetricDetails::new_with_initial_value(format!("bp{}", i), i as i32)
+                .use_alias(i % 2 == 1)
+                .with_timestamp(BP_TS + i as u64)
+                .with_properties(ups_to_srad(u).expect("checked by the caller"));
+            let _ = bi.register_metric(d).expect("birth metric with properties registers");
+        }
     }
 }
+const BP_TS: u64 = 4242;
 impl NodeMetricManager for Mgr {}
 impl DeviceMetricManager for Mgr {}
 
@@ -1205,6 +1254,8 @@ struct Inner {
     edge_broker: ChannelBroker,
     ntoks: TokTable,
     dtoks: TokTable,
+    nextra: ExtraBirth,
+    dextra: ExtraBirth,
     app_broker: ChannelBroker,
     happ_broker: ChannelBroker,
     rec: Arc<Mutex<Vec<RecCall>>>,
@@ -1403,15 +1454,17 @@ impl World {
             // edge
             let ntoks: TokTable = Arc::new(Mutex::new(BTreeMap::new()));
             let dtoks: TokTable = Arc::new(Mutex::new(BTreeMap::new()));
+            let nextra: ExtraBirth = Arc::new(Mutex::new(vec![]));
+            let dextra: ExtraBirth = Arc::new(Mutex::new(vec![]));
             let (el, client, edge_broker) = ChannelEventLoop::new();
             let (eon, node) = EoNBuilder::new(el, client)
                 .with_group_id(GROUP)
                 .with_node_id(EDGE)
-                .with_metric_manager(Mgr { toks: ntoks.clone() })
+                .with_metric_manager(Mgr { toks: ntoks.clone(), extra: nextra.clone() })
                 .build()
                 .unwrap();
             tokio::spawn(eon.run());
-            let dev = node.register_device(DEV, Mgr { toks: dtoks.clone() }).unwrap();
+            let dev = node.register_device(DEV, Mgr { toks: dtoks.clone(), extra: dextra.clone() }).unwrap();
             dev.enable();
             edge_broker.tx_event.send(Event::Online).unwrap();
             barrier().await;
@@ -1421,6 +1474,8 @@ impl World {
                 edge_broker,
                 ntoks,
                 dtoks,
+                nextra,
+                dextra,
                 app_broker,
                 happ_broker,
                 rec,
@@ -1560,6 +1615,39 @@ impl World {
             E2e { result: res, msgs, classes, rec, wire_ok }
         });
         set_mock_timestamp(Some(inner.clock));
+        Ok(r)
+    }
+
+    /// a rebirth in which the node's (`who` = n) or the device's (d) manager registers, besides its usual
+    /// metrics, one birth metric `bp<i>` per given property set (`BirthMetricDetails::with_properties`);
+    /// NBIRTH and DBIRTH go over the wire to the e2e host. The edge node is out of step with the host afterwards.
+    pub fn bprops(&mut self, who: &str, sets: &[Ups]) -> Result<E2e, String> {
+        for u in sets {
+            ups_to_srad(u)?;
+        }
+        let inner = &mut self.inner;
+        inner.tick();
+        *inner.nextra.lock().unwrap() = if who == "n" { sets.to_vec() } else { vec![] };
+        *inner.dextra.lock().unwrap() = if who == "d" { sets.to_vec() } else { vec![] };
+        let r = self.rt.block_on(async {
+            inner.node.rebirth();
+            barrier().await;
+            let msgs = inner.drain_edge();
+            let mut classes = vec![];
+            let mut wire_ok = true;
+            for (topic, payload) in &msgs {
+                let bytes: Vec<u8> = payload.clone().into();
+                wire_ok &= Payload::decode(bytes.as_slice()).map(|p| p.encode_to_vec() == bytes).unwrap_or(false);
+                classes.push(inner.classify(topic, &bytes).await);
+                Inner::deliver(&inner.app_broker, topic, &bytes);
+            }
+            barrier().await;
+            let rec = inner.take_rec();
+            E2e { result: "ok", msgs, classes, rec, wire_ok }
+        });
+        inner.nextra.lock().unwrap().clear();
+        inner.dextra.lock().unwrap().clear();
+        inner.synced = false;
         Ok(r)
     }
 
@@ -1705,6 +1793,86 @@ fn spec_pset_map(s: &PSetT) -> String {
         vals: m.values().cloned().collect(),
     };
     show_pset(&t, true)
+}
+
+/// name of a datatype code in the specification's table (written out here, independent of srad)
+fn spec_dt_name(code: Option<u32>) -> String {
+    const NAMES: [&str; 22] = [
+        "Unknown", "Int8", "Int16", "Int32", "Int64", "UInt8", "UInt16", "UInt32", "UInt64", "Float", "Double", "Boolean", "String",
+        "DateTime", "Text", "UUID", "DataSet", "Bytes", "File", "Template", "PropertySet", "PropertySetList",
+    ];
+    match code {
+        None => "untyped".into(),
+        Some(c) if (c as usize) < NAMES.len() => NAMES[c as usize].into(),
+        Some(c) => format!("code{}", c),
+    }
+}
+/// nesting depth of a payload property set (a set that holds no set has depth 1)
+pub fn pset_depth(s: &PSetT) -> u32 {
+    1 + s
+        .vals
+        .iter()
+        .map(|p| match &p.v {
+            Some(PVal::Set(i)) => pset_depth(i),
+            Some(PVal::Sets(l)) => l.iter().map(pset_depth).max().unwrap_or(0),
+            _ => 0,
+        })
+        .max()
+        .unwrap_or(0)
+}
+pub fn ups_depth(u: &Ups) -> u32 {
+    pset_depth(&spec_encode_ups(u))
+}
+/// Shrinks a refused property set to the discriminating trait of the input: WHICH published property does
+/// the host refuse? The host converts a metric's property set with the public
+/// `PropertySet::try_from(payload::PropertySet)`; every entry is tried on its own (with its key, as the only
+/// entry of a set), and inside a refused nested value every inner entry on its own, down to a smallest refused
+/// one, which is described by the specification's name of its datatype, `:null`, and the nesting depth of the
+/// one-entry set for set-valued entries. `None`: the set is accepted; `whole-set`: only the combination is refused.
+pub fn refused_property(s: &PSetT) -> Option<String> {
+    fn refused(s: &PSetT) -> bool {
+        let p = pset_to_srad(s);
+        !matches!(catch(std::panic::AssertUnwindSafe(move || PropertySet::try_from(p).is_ok())), Ok(true))
+    }
+    fn go(s: &PSetT) -> Option<String> {
+        for (k, v) in s.keys.iter().zip(s.vals.iter()) {
+            let one = PSetT { keys: vec![k.clone()], vals: vec![v.clone()] };
+            if !refused(&one) {
+                continue;
+            }
+            let inner: Vec<&PSetT> = match &v.v {
+                Some(PVal::Set(i)) => vec![i],
+                Some(PVal::Sets(l)) => l.iter().collect(),
+                _ => vec![],
+            };
+            for i in &inner {
+                if let Some(f) = go(i) {
+                    return Some(f);
+                }
+            }
+            let mut d = spec_dt_name(v.ty);
+            if v.v.is_none() {
+                d.push_str(":null");
+            }
+            if !inner.is_empty() {
+                d.push_str(&format!(":nesting-depth-{}", pset_depth(&one)));
+            }
+            return Some(d);
+        }
+        None
+    }
+    if !refused(s) {
+        return None;
+    }
+    Some(go(s).unwrap_or_else(|| "whole-set".into()))
+}
+/// feature of a message the host refused with `InvalidProperties`: the refused property of the first metric that has one
+fn refused_feature(p: &Payload) -> Option<String> {
+    p.metrics
+        .iter()
+        .filter_map(|m| m.properties.as_ref())
+        .find_map(|ps| refused_property(&pset_from_srad(ps)))
+        .map(|f| format!("host-refuses-property:{}", f))
 }
 
 fn pm_feature(w: &World, p: &Pm) -> String {
@@ -1985,6 +2153,71 @@ fn exec_in(w: &mut World, op: &str, out: &mut Out) -> String {
             }
             format!("set:{} sets:{}", a, b)
         }
+        ["metric", "bprops", who, l] => {
+            // C12 for the properties of BIRTH metrics: `BirthMetricDetails::with_properties` on the node's / the
+            // device's manager -> real NBIRTH / DBIRTH -> wire -> host -> `update_from_birth` of the store
+            let sets = p_list(l, p_ups).expect("property set list");
+            let r = match w.bprops(who, &sets) {
+                Ok(r) => r,
+                Err(e) => panic!("bad op {}: {}", op, e),
+            };
+            if !r.wire_ok {
+                out.fail("C12:wire-roundtrip", "prost", format!("{}: decode(encode(p)) != p", op));
+            }
+            let (want_topic, want_tag) = if *who == "n" {
+                (format!("spBv1.0/{}/NBIRTH/{}", GROUP, EDGE), format!("{}/{}", GROUP, EDGE))
+            } else {
+                (format!("spBv1.0/{}/DBIRTH/{}/{}", GROUP, EDGE, DEV), format!("{}/{}/{}", GROUP, EDGE, DEV))
+            };
+            let idx = r.msgs.iter().position(|(t, _)| *t == want_topic);
+            let got: Option<&Vec<He>> = r.rec.iter().filter(|c| c.tag == want_tag).find_map(|c| if let RecKind::Birth(v) = &c.kind { Some(v) } else { None });
+            let depth = sets.iter().map(ups_depth).max().unwrap_or(0);
+            let shape = if depth > 1 { "properties-nested" } else { "properties-flat" };
+            match (idx, got) {
+                (None, _) => {
+                    out.fail("C12:birth-metric-delivered", "no-birth-handed-over", format!("{}: the rebirth handed over {:?}", op, r.msgs.iter().map(|m| m.0.clone()).collect::<Vec<_>>()));
+                    "undelivered".into()
+                }
+                (Some(i), None) => {
+                    let feat = match &r.classes[i] {
+                        Class::Err("props") => refused_feature(&r.msgs[i].1).unwrap_or(shape.to_string()),
+                        _ => shape.to_string(),
+                    };
+                    out.fail(
+                        "C12:birth-metric-delivered",
+                        &feat,
+                        format!("{}: the host answered `{}` to the {} and its store received no update_from_birth ({} store call(s) in all)", op, host_answer(&r.classes[i], &[]), want_topic, r.rec.len()),
+                    );
+                    "undelivered".into()
+                }
+                (Some(_), Some(entries)) => {
+                    let mut shown = vec![];
+                    for (i, u) in sets.iter().enumerate() {
+                        let name = format!("bp{}", i);
+                        let want = show_pset(&spec_encode_ups(u), true);
+                        match entries.iter().find(|h| h.birth.as_ref().map(|b| b.0.as_str()) == Some(name.as_str())) {
+                            None => {
+                                out.fail("C12:birth-metric-delivered", shape, format!("{}: birth metric `{}` is not among the {} metrics the store received", op, name, entries.len()));
+                                shown.push("missing".to_string());
+                            }
+                            Some(h) => {
+                                let b = h.birth.as_ref().unwrap();
+                                if b.1.is_some() != (i % 2 == 1) || b.2 != DataType::Int32 as u32 || h.val != Some(Val::I(i as u32)) || h.ts != BP_TS + i as u64 || h.hi || h.tr {
+                                    out.fail("C12:birth-field-value", shape, format!("{}: `{}` arrived as {}", op, name, show_he(h)));
+                                }
+                                let gotp = h.props.as_ref().map(|p| show_pset(p, true));
+                                if gotp.as_deref() != Some(want.as_str()) {
+                                    let f = if ups_depth(u) > 1 { "properties-nested" } else { "properties-flat" };
+                                    out.fail("C12:birth-field-properties", f, format!("{}: property set (as a map) of `{}` differs: got {} expected {}", op, name, gotp.clone().unwrap_or("_".into()), want));
+                                }
+                                shown.push(gotp.unwrap_or("_".into()));
+                            }
+                        }
+                    }
+                    format!("ok {}", show_list("L", shown))
+                }
+            }
+        }
         ["metric", "wbytes", who, variant, prevseq, now, l] => {
             // the BYTES the edge node's message is on the wire (prost `encode_to_vec` of the payload the
             // client was handed), against `encW (payloadOf ..)` of Model/MetricWire.lean: ties `toTree`, the
@@ -2063,6 +2296,11 @@ fn exec_in(w: &mut World, op: &str, out: &mut Out) -> String {
                     };
                     match got {
                         None => {
+                            // a message refused for its properties: name the refused property, not the metric's type
+                            let feat = match &r.classes[0] {
+                                Class::Err("props") => refused_feature(&r.msgs[0].1).unwrap_or(feat.clone()),
+                                _ => feat.clone(),
+                            };
                             out.fail(
                                 "C12:delivered-to-store",
                                 &feat,
@@ -2125,6 +2363,7 @@ fn exec_in(w: &mut World, op: &str, out: &mut Out) -> String {
 /// Execute one op on the implementation (oracle clauses are evaluated here). A panic anywhere
 /// in the implementation is the answer `panic`.
 pub fn exec(op: &str, out: &mut Out) -> String {
+    let _crumb = crate::common::crumb::guard(op);
     // `out` is only touched after the implementation returned, so a caught panic leaves it intact
     let r = {
         let out_ptr = std::panic::AssertUnwindSafe(&mut *out);
@@ -2304,11 +2543,12 @@ fn random_ups(rng: &mut Rng, depth: u32, out: &mut Out) -> Ups {
             }
             3 | 4 => {
                 out.count("prop:null");
-                (k, Some(rng.range(1, 13) as u32), UVal::Null)
+                (k, Some(rng.range(1, 15) as u32), UVal::Null)
             }
             _ => {
                 out.count("prop:scalar");
-                let dt = rng.range(1, 13) as u32;
+                let dt = rng.range(1, 15) as u32;
+                out.count(&format!("prop-datatype:{}", spec_dt_name(Some(dt))));
                 (k, Some(dt), UVal::Sc(random_prop_scalar(dt, rng)))
             }
         };
@@ -2318,6 +2558,129 @@ fn random_ups(rng: &mut Rng, depth: u32, out: &mut Out) -> Ups {
     let pos = rng.below(v.len() as u64 + 1) as usize;
     v.insert(pos, ("Quality".to_string(), Some(3), UVal::Sc(PVal::I(q))));
     Ups(v)
+}
+
+/// deepest nesting of property sets the generators use (the metric's own set is level 1). A nested set costs two
+/// protobuf message levels (PropertyValue, PropertySet), one inside a set list three; prost refuses a message
+/// nested deeper than 100 levels (its recursion limit, C19), so the unchanged library accepts up to 48 levels of
+/// sets nested directly and fewer through lists: `chain_ups` nests through a list at most every other level, and
+/// the generators skip what would reach beyond `MAX_WIRE_LEVELS` message levels.
+pub const MAX_NEST: u32 = 40;
+/// how the levels of a chain are nested: directly, through one-element set lists on every other level, alternating
+pub const CHAIN_SHAPES: [&str; 3] = ["set", "list", "mixed"];
+
+/// a property set of nesting depth `depth` (>= 1): `leaf` at the bottom, above it one set per level that holds
+/// its Quality and the next level under the key `n` (as a PropertySet or a one-element PropertySetList)
+pub fn chain_ups(depth: u32, shape: &str, leaf: Ups) -> Ups {
+    let mut cur = leaf;
+    for level in 1..depth {
+        let via_list = match shape {
+            "set" => false,
+            "list" => level % 2 == 0,
+            _ => level % 4 == 0,
+        };
+        let q = ("Quality".to_string(), Some(3), UVal::Sc(PVal::I([0u32, 192, 500][(level % 3) as usize])));
+        let n = if via_list { ("n".to_string(), Some(21), UVal::Sets(vec![cur])) } else { ("n".to_string(), Some(20), UVal::Set(cur)) };
+        cur = Ups(if level % 2 == 0 { vec![q, n] } else { vec![n, q] });
+    }
+    cur
+}
+
+/// A property set that uses everything a property set can hold, for components that need "a metric with
+/// properties" (closed loop `rule props`): profile 0 = flat: a value AND a null of every scalar property datatype
+/// (Int8..UInt64, Float, Double, Boolean, String, DateTime, Text, UUID), null PropertySet / PropertySetList;
+/// 1 = a nested set holding profile 0, a list of two such sets, an empty list; 2 = profile 0 at the bottom of
+/// 12 levels of nested sets (every fourth through a list); 3 = all of it in one set. Built through the public
+/// API (`PropertySet::new_with_quality`, `insert`).
+pub fn rich_ups(profile: u32) -> Ups {
+    let flat = || {
+        let mut v: Vec<(String, Option<u32>, UVal)> = vec![("Quality".to_string(), Some(3), UVal::Sc(PVal::I(192)))];
+        for dt in 1..=15u32 {
+            let val = match dt {
+                1 | 5 => PVal::I(0x7F),
+                2 | 6 => PVal::I(0x7FFF),
+                3 | 7 => PVal::I(0x7FFF_FFFF),
+                4 | 8 => PVal::L(0x7FFF_FFFF_FFFF_FFFF),
+                13 => PVal::L(1_700_000_000_000),
+                9 => PVal::F(1.5f32.to_bits()),
+                10 => PVal::D(2.5f64.to_bits()),
+                11 => PVal::B(true),
+                _ => PVal::S(format!("s{}", dt)),
+            };
+            v.push((format!("v{}", dt), Some(dt), UVal::Sc(val)));
+            v.push((format!("n{}", dt), Some(dt), UVal::Null));
+        }
+        v.push(("n20".to_string(), Some(20), UVal::Null));
+        v.push(("n21".to_string(), Some(21), UVal::Null));
+        Ups(v)
+    };
+    let nested = || vec![
+        ("set".to_string(), Some(20), UVal::Set(flat())),
+        ("sets".to_string(), Some(21), UVal::Sets(vec![flat(), flat()])),
+        ("nosets".to_string(), Some(21), UVal::Sets(vec![])),
+    ];
+    let deep = || ("deep".to_string(), Some(20), UVal::Set(chain_ups(11, "mixed", flat())));
+    match profile {
+        0 => flat(),
+        1 => {
+            let mut v = vec![("Quality".to_string(), Some(3), UVal::Sc(PVal::I(0)))];
+            v.extend(nested());
+            Ups(v)
+        }
+        2 => Ups(vec![("Quality".to_string(), Some(3), UVal::Sc(PVal::I(500))), deep()]),
+        _ => {
+            let mut v = flat().0;
+            v.extend(nested());
+            v.push(deep());
+            Ups(v)
+        }
+    }
+}
+pub const RICH_PROFILES: u32 = 4;
+pub fn rich_props(profile: u32) -> PropertySet {
+    ups_to_srad(&rich_ups(profile)).expect("rich property set is expressible through the API")
+}
+
+/// deepest protobuf message level a metric's property set reaches on the wire (Payload = 1, Metric = 2, the
+/// metric's PropertySet = 3, each PropertyValue one more, a PropertySetList one more)
+pub fn ups_wire_levels(u: &Ups, at: u32) -> u32 {
+    u.0.iter()
+        .map(|(_, _, v)| match v {
+            UVal::Set(i) => ups_wire_levels(i, at + 2),
+            UVal::Sets(l) => l.iter().map(|i| ups_wire_levels(i, at + 3)).max().unwrap_or(at + 2),
+            _ => at + 1,
+        })
+        .max()
+        .unwrap_or(at)
+}
+/// the generators stay this far below prost's limit of 100 nested messages
+pub const MAX_WIRE_LEVELS: u32 = 90;
+
+/// the typed property set `Quality` + one entry `p` of the given datatype (null, or the given scalar)
+fn one_prop_ups(dt: u32, v: UVal) -> Ups {
+    Ups(vec![("Quality".to_string(), Some(3), UVal::Sc(PVal::I(0))), ("p".to_string(), Some(dt), v)])
+}
+
+/// boundary and random values of a scalar property datatype, as the property value srad's own typed conversion yields
+fn prop_scalar_values(dt: u32, rng: &mut Rng) -> Vec<PVal> {
+    let bits = [0u64, 1, u64::MAX, 1 << 63, (1 << 63) - 1, 0x80, 0x7F, 0x8000, 0x7FFF, 0x8000_0000, 0x7FFF_FFFF, 0xFFFF_FFFF, rnd_bits(rng)];
+    let mut v: Vec<PVal> = vec![];
+    for b in bits {
+        let x = match dt {
+            1 | 5 => PVal::I((b & 0xFF) as u32),
+            2 | 6 => PVal::I((b & 0xFFFF) as u32),
+            3 | 7 => PVal::I(b as u32),
+            4 | 8 | 13 => PVal::L(b),
+            9 => PVal::F(b as u32),
+            10 => PVal::D(b),
+            11 => PVal::B(b & 1 == 1),
+            _ => PVal::S(if b == 0 { String::new() } else if b == 1 { "\u{0}é€😀".to_string() } else { rnd_str(rng, true) }),
+        };
+        if !v.contains(&x) {
+            v.push(x);
+        }
+    }
+    v
 }
 
 fn random_ostr(rng: &mut Rng) -> Option<String> {
@@ -2356,7 +2719,26 @@ fn random_pm(ids: &[(String, &'static str)], rng: &mut Rng, tsmode: u32, out: &m
         },
     };
     let meta = if rng.chance(2, 5) { Some(random_emeta(rng)) } else { None };
-    let props = if rng.chance(1, 2) { Some(random_ups(rng, 3, out)) } else { None };
+    let props = if rng.chance(1, 2) {
+        let u = random_ups(rng, 3, out);
+        // one property set in 16 sits at the bottom of a deep chain of nested sets
+        if rng.chance(1, 16) {
+            let mut extra = rng.range(2, MAX_NEST as u64 - 4) as u32;
+            let shape = *rng.pick(&CHAIN_SHAPES);
+            while extra > 1 && ups_wire_levels(&chain_ups(extra, shape, u.clone()), 3) > MAX_WIRE_LEVELS {
+                extra -= 1;
+            }
+            out.count("prop:deep-chain");
+            Some(chain_ups(extra, shape, u))
+        } else {
+            Some(u)
+        }
+    } else {
+        None
+    };
+    if let Some(u) = &props {
+        out.count(&format!("prop-nesting-depth:{}", match ups_depth(u) { 1 => "1", 2 => "2", 3..=4 => "3-4", 5..=8 => "5-8", 9..=16 => "9-16", 17..=32 => "17-32", _ => "33+" }));
+    }
     out.count(if meta.is_some() { "metadata:some" } else { "metadata:none" });
     out.count(if props.is_some() { "properties:some" } else { "properties:none" });
     Pm {
@@ -2405,6 +2787,15 @@ fn e2e_case(out: &mut Out, who: &str, variant: &str, pms: &[Pm], stat: &str) {
     out.count(stat);
     out.count(&format!("variant:{}:{}", who, variant));
     out.count(&format!("batch-size:{}", match pms.len() { 0 => "0", 1 => "1", 2..=4 => "2-4", 5..=16 => "5-16", _ => "17+" }));
+}
+
+/// one birth case: a rebirth whose node / device birth carries one extra metric per property set
+fn bprops_case(out: &mut Out, who: &str, sets: &[Ups], stat: &str) {
+    out.begin_case("metric new", "ok");
+    line(out, &format!("metric bprops {} {}", who, show_list("L", sets.iter().map(show_ups).collect())));
+    out.nontrivial();
+    out.count(stat);
+    out.count(&format!("birth-props:{}", who));
 }
 
 /// a host case on the payload metrics the real edge conversion produced for `pms`
@@ -2641,7 +3032,7 @@ fn mutate_qm(q: &mut Qm, rng: &mut Rng, out: &mut Out) {
     }
 }
 
-pub const RULE: &str = "end to end through the real NodeHandle/DeviceHandle -> recording client -> prost encode -> topic_and_payload_to_event -> AppEventLoop / Application -> recording MetricStore: every registered metric (27 Rust types incl. a user type carrying data sets / templates / extension values, by name and by alias, node and device) x value/null x transient n/t/f x historical n/t/f (exhaustive, single publishes through publish_metric and try_publish_metric); the marker combinations identifier kind x value x flags x default/custom timestamp x metadata x properties (exhaustive, 288); every timestamp assignment over {1,2,3} for batches of up to 5 (thorough 6) metrics through the sorting variants (exhaustive); random batches of size 1..=64 (thorough: ..=200) through all six publish variants on node and device with spread / few distinct / all-equal timestamps, random metadata and property sets (random keys incl. empty, all 13 scalar property types, nulls, nested sets and set lists to depth 3, quality Good/Bad/Stale); empty batches; host conversion alone on the payloads the edge really produced and on mutated ones (identifier/timestamp/value/is_null/datatype/metadata markers, malformed property sets) for NDATA and DDATA, all 1296 marker combinations of a payload metric (exhaustive), payload seq/timestamp absent and out of range; NBIRTH/DBIRTH payloads built from the same metrics with name/datatype/bdSeq present, absent and out of range; payload property sets alone: 648 count/marker/type-code combinations (exhaustive) plus mutated random sets. Non-trivial = every case (each executes at least one conversion); distinct = distinct op lines (hashed).";
+pub const RULE: &str = "end to end through the real NodeHandle/DeviceHandle -> recording client -> prost encode -> topic_and_payload_to_event -> AppEventLoop / Application -> recording MetricStore: every registered metric (27 Rust types incl. a user type carrying data sets / templates / extension values, by name and by alias, node and device) x value/null x transient n/t/f x historical n/t/f (exhaustive, single publishes through publish_metric and try_publish_metric); the marker combinations identifier kind x value x flags x default/custom timestamp x metadata x properties (exhaustive, 288); every timestamp assignment over {1,2,3} for batches of up to 5 (thorough 6) metrics through the sorting variants (exhaustive); random batches of size 1..=64 (thorough: ..=200) through all six publish variants on node and device with spread / few distinct / all-equal timestamps, random metadata and property sets (random keys incl. empty, all 15 scalar property types incl. DateTime and, through user property types, Text and UUID, nulls, nested sets and set lists to depth 3, one set in 16 at the bottom of a chain of up to 40 nested sets, quality Good/Bad/Stale); every property datatype x null / boundary values alone beside Quality on a data metric and, through `BirthMetricDetails::with_properties` and a real rebirth, on a birth metric of the NBIRTH and of the DBIRTH (exhaustive); nesting depth 1..=40 x nested directly / through set lists, on data and on birth metrics (exhaustive, within 90 protobuf levels); random property sets on birth metrics; empty batches; host conversion alone on the payloads the edge really produced and on mutated ones (identifier/timestamp/value/is_null/datatype/metadata markers, malformed property sets) for NDATA and DDATA, all 1296 marker combinations of a payload metric (exhaustive), payload seq/timestamp absent and out of range; NBIRTH/DBIRTH payloads built from the same metrics with name/datatype/bdSeq present, absent and out of range; payload property sets alone: 648 count/marker/type-code combinations (exhaustive) plus mutated random sets. Non-trivial = every case (each executes at least one conversion); distinct = distinct op lines (hashed).";
 
 pub fn run(args: &Args, out: &mut Out) -> &'static str {
     let mut rng = Rng::new(args.seed);
@@ -2680,6 +3071,85 @@ pub fn run(args: &Args, out: &mut Out) -> &'static str {
         e2e_case(out, "n", "pm", &[p], "single-exhaustive-markers");
     }
     out.exhaustive.push("identifier kind x value/null x transient x historical x default/custom timestamp x metadata x properties (288 combinations)".into());
+
+    // --- properties: every property datatype x value / null, on data metrics and on birth metrics ---
+    {
+        let by_name = |ids: &Vec<(String, &'static str)>| p_id(&parse_tree(&ids.iter().find(|(i, k)| *k == "i32" && i.starts_with('N')).unwrap().0).unwrap()).unwrap();
+        let by_alias = |ids: &Vec<(String, &'static str)>| p_id(&parse_tree(&ids.iter().find(|(i, k)| *k == "f64" && i.starts_with('A')).unwrap().0).unwrap()).unwrap();
+        let flat = |q: u32| Ups(vec![("Quality".to_string(), Some(3), UVal::Sc(PVal::I(q))), ("unit".to_string(), Some(12), UVal::Sc(PVal::S("°C".into())))]);
+        for (who, ids) in [("n", &nids), ("d", &dids)] {
+            let mut k = 0u32;
+            for dt in (1..=15u32).chain([20, 21]) {
+                let mut vals: Vec<UVal> = vec![UVal::Null];
+                match dt {
+                    20 => vals.extend([UVal::Set(flat(0)), UVal::Set(one_prop_ups(13, UVal::Sc(PVal::L(1_700_000_000_000)))), UVal::Set(one_prop_ups(20, UVal::Null))]),
+                    21 => vals.extend([UVal::Sets(vec![]), UVal::Sets(vec![flat(192)]), UVal::Sets(vec![flat(500), one_prop_ups(21, UVal::Null), one_prop_ups(8, UVal::Sc(PVal::L(u64::MAX)))])]),
+                    _ => vals.extend(prop_scalar_values(dt, &mut rng).into_iter().map(UVal::Sc)),
+                }
+                let mut birth_sets = vec![];
+                for v in vals {
+                    let u = one_prop_ups(dt, v.clone());
+                    out.count(&format!("prop-datatype:{}{}", spec_dt_name(Some(dt)), if v == UVal::Null { ":null" } else { "" }));
+                    k += 1;
+                    let p = Pm {
+                        id: if k % 2 == 0 { by_name(ids) } else { by_alias(ids) },
+                        val: Some(if k % 2 == 0 { Val::I(k) } else { Val::D(k as u64) }),
+                        tr: None,
+                        hi: None,
+                        ts: Some(100 + k as u64),
+                        meta: None,
+                        props: Some(u.clone()),
+                    };
+                    e2e_case(out, who, ["pm", "tpm", "pmu", "pms"][(k % 4) as usize], &[p], "props-exhaustive-datatypes");
+                    birth_sets.push(u);
+                }
+                // the same sets on birth metrics: each alone (the first two: null and a value), then all of the datatype together
+                for u in birth_sets.iter().take(2) {
+                    bprops_case(out, who, std::slice::from_ref(u), "birth-props-exhaustive-datatypes");
+                }
+                bprops_case(out, who, &birth_sets, "birth-props-exhaustive-datatypes");
+            }
+        }
+        out.exhaustive.push("properties: every property datatype (Int8..UInt64, Float, Double, Boolean, String, DateTime, and through user property types Text and UUID; PropertySet, PropertySetList) x null / boundary values, alone beside Quality, on a data metric (node and device, by name and by alias) and on a birth metric of the NBIRTH and of the DBIRTH".into());
+        // --- nesting depth 1..=MAX_NEST x how the levels are nested ---
+        let leaf = Ups(vec![("leaf".to_string(), Some(13), UVal::Sc(PVal::L(86_400_000))), ("Quality".to_string(), Some(3), UVal::Sc(PVal::I(500)))]);
+        for depth in 1..=MAX_NEST {
+            for (si, shape) in CHAIN_SHAPES.iter().enumerate() {
+                let u = chain_ups(depth, shape, leaf.clone());
+                if ups_wire_levels(&u, 3) > MAX_WIRE_LEVELS || (depth == 1 && si > 0) {
+                    continue;
+                }
+                let who = if (depth as usize + si) % 2 == 0 { "n" } else { "d" };
+                let ids = if who == "n" { &nids } else { &dids };
+                out.count(&format!("prop-nesting-depth:{}", match depth { 1 => "1", 2 => "2", 3..=4 => "3-4", 5..=8 => "5-8", 9..=16 => "9-16", 17..=32 => "17-32", _ => "33+" }));
+                let p = Pm { id: by_name(ids), val: Some(Val::I(depth)), tr: None, hi: None, ts: Some(depth as u64), meta: None, props: Some(u.clone()) };
+                e2e_case(out, who, ["pm", "tpms", "pmu"][si], &[p], "props-nesting-depth");
+                bprops_case(out, if who == "n" { "d" } else { "n" }, &[u], "birth-props-nesting-depth");
+            }
+        }
+        out.exhaustive.push(format!("properties: nesting depth 1..={} (the metric's own set is level 1) x levels nested directly / through one-element set lists on every other level / on every fourth level, as far as the message stays within {} protobuf levels, on a data metric and on a birth metric", MAX_NEST, MAX_WIRE_LEVELS));
+        // --- random property sets on birth metrics ---
+        for _ in 0..(if th { 1500 } else { 150 }) {
+            let who = if rng.chance(1, 2) { "n" } else { "d" };
+            let n = rng.range(1, 3) as usize;
+            let sets: Vec<Ups> = (0..n)
+                .map(|_| {
+                    let u = random_ups(&mut rng, 3, out);
+                    if rng.chance(1, 8) {
+                        let shape = *rng.pick(&CHAIN_SHAPES);
+                        let mut extra = rng.range(2, MAX_NEST as u64 - 4) as u32;
+                        while extra > 1 && ups_wire_levels(&chain_ups(extra, shape, u.clone()), 3) > MAX_WIRE_LEVELS {
+                            extra -= 1;
+                        }
+                        chain_ups(extra, shape, u)
+                    } else {
+                        u
+                    }
+                })
+                .collect();
+            bprops_case(out, who, &sets, "birth-props-random");
+        }
+    }
 
     // --- empty batches ---
     for who in ["n", "d"] {
